@@ -301,6 +301,11 @@ func (c *PullClient) requestPlay() (err error) {
 	c.stream = media.NewStream(c.path, c.rawSdp,
 		media.Attr("addr", c.url.String()),
 		media.Multicast(mproxy))
+	// 注册必须在返回之前同步完成：Open 返回后请求方紧接着的 SETUP/PLAY 还会按路径查找这个流，
+	// 若注册留给 playStream routine 去做，查找可能先于注册，于是同一个请求方又触发第二次拉流，
+	// 两个流互相顶替，请求方挂接的那个被关闭(摄像头一切正常，请求方却收不到媒体)
+	media.Regist(c.stream) // 向媒体中心注册流
+	stats.RtspConns.Add()  // 增加一个 RTSP 连接计数
 	go c.playStream()
 
 	return nil
@@ -323,8 +328,6 @@ func (c *PullClient) playStream() {
 	}()
 
 	c.logger.Infof("open pull stream")
-	media.Regist(c.stream) // 向媒体中心注册流
-	stats.RtspConns.Add()  // 增加一个 RTSP 连接计数
 
 	lastHeartbeat := time.Now()
 	reader := c.conn.Reader()
